@@ -136,6 +136,8 @@ pub struct Scenario {
 pub struct DriverOut {
     /// k-th started root session -> session id
     pub root_sessions: Vec<u32>,
+    /// k-th started root session -> index of its document in Scenario.docs
+    pub root_docs: Vec<usize>,
     /// final configuration per root session (state names), if the session ended
     pub final_configs: Vec<Option<Vec<String>>>,
     /// sessions known to the executor at the end
@@ -195,7 +197,8 @@ fn send_to(ctx: &Ctx, sess: usize, e: Event) {
     }
 }
 
-fn register_session(ctx: &Ctx, res: Result<ScxmlSession, String>) {
+fn register_session(ctx: &Ctx, doc: usize, res: Result<ScxmlSession, String>) {
+    ctx.out.lock().unwrap().root_docs.push(doc);
     match res {
         Ok(s) => {
             ctx.out.lock().unwrap().root_sessions.push(s.session_id);
@@ -244,7 +247,7 @@ pub fn run_scenario(sc: Arc<Scenario>, out: Arc<Mutex<DriverOut>>) {
         match step {
             Step::Start { doc } => {
                 let r = start_doc(&sc, *doc, &ctx.executor);
-                register_session(&ctx, r);
+                register_session(&ctx, *doc, r);
             }
             Step::Producers { ids } => {
                 for id in ids {
@@ -260,7 +263,7 @@ pub fn run_scenario(sc: Arc<Scenario>, out: Arc<Mutex<DriverOut>>) {
                                     PStep::Send { sess, ev } => send_to(&c, *sess, ev.to_event()),
                                     PStep::Start { doc } => {
                                         let r = start_doc(&scc, *doc, &c.executor);
-                                        register_session(&c, r);
+                                        register_session(&c, *doc, r);
                                     }
                                     PStep::Cancel { sess } => send_to(&c, *sess, Event::new_simple(EVENT_CANCEL_SESSION)),
                                     PStep::Yield => shuttle::thread::yield_now(),
